@@ -267,6 +267,16 @@ func check(prop, tier, only, repoDir, verifDir string, workers, par, seed int, d
 							fmt.Println(indent(ro.Output))
 						}
 					}
+				} else if hitP := probeNatively(rp, hr.Spec, ob, ld.Specs, tier, knownIDs, replayDir, seed, &probeBudget); hitP != nil && !reproduced[ob.Label] {
+					// the solver's own model did not reproduce (abstraction / float rounding), but
+					// native evaluation at another point satisfying the assumptions does violate it
+					reproduced[ob.Label] = true
+					replays++
+					nViol++
+					sum.Verdict = "VIOLATED(solver model not reproducible; violation found by native evaluation at a probe point)"
+					line := fmt.Sprintf("VIOLATION property=%s replay=%s", prop, hitP.File)
+					violations = append(violations, line)
+					fmt.Printf("%s\n  harness=%s label=%s site=%s (solver reported a counterexample that did not replay; native probing found a reproducing one)\n", line, hr.Spec.Name, ob.Label, ob.Site)
 				} else {
 					nInc++
 					sum.Verdict = "inconclusive(model not reproduced: " + ro.Why + ")"
@@ -279,7 +289,7 @@ func check(prop, tier, only, repoDir, verifDir string, workers, par, seed int, d
 				if len(ob.Vars) > 0 && probeBudget > 0 {
 					// last resort for an undecided obligation: native evaluation at pseudo-random
 					// points (bug hunting only: a hit is a replayed violation, a miss proves nothing)
-					ob.ProbeModels = append(ob.ProbeModels, randomModels(ob.Vars, 120, seed+len(ob.Label))...)
+					ob.ProbeModels = append(ob.ProbeModels, randomModelsB(ob.Vars, ob.Bounds, 120, seed+len(ob.Label))...)
 					probeBudget--
 				}
 				if os.Getenv("GOSMT_DEBUG") != "" {
@@ -492,7 +502,9 @@ func writeBrokenEvidence(verifDir, prop, tier string, seed int, why string, wall
 }
 
 // randomModels: pseudo-random assignments to the harness symbols of an obligation
-func randomModels(vars map[string]Sort, n int, seed int) []Model {
+func randomModels(vars map[string]Sort, n int, seed int) []Model { return randomModelsB(vars, nil, n, seed) }
+
+func randomModelsB(vars map[string]Sort, bounds map[string][2]float64, n int, seed int) []Model {
 	var names []string
 	for v := range vars {
 		if strings.HasPrefix(v, "sym:") {
@@ -516,6 +528,17 @@ func randomModels(vars map[string]Sort, n int, seed int) []Model {
 				if next()%6 == 0 {
 					x = mags[next()%uint64(len(mags))]
 				}
+				if b, ok := bounds[v]; ok && next()%4 != 0 {
+					// inside the harness's stated range: uniform, or close to either end
+					u := float64(next()%100000) / 100000.0
+					switch next() % 4 {
+					case 0:
+						u = u * u * u
+					case 1:
+						u = 1 - u*u*u
+					}
+					x = b[0] + u*(b[1]-b[0])
+				}
 				if x < 0 {
 					m[v] = fmt.Sprintf("(- %v)", strconv.FormatFloat(-x, 'f', -1, 64))
 				} else {
@@ -538,4 +561,23 @@ func randomModels(vars map[string]Sort, n int, seed int) []Model {
 		out = append(out, m)
 	}
 	return out
+}
+
+// probeNatively: evaluate the harness natively at pseudo-random symbol values (the harness's
+// own Assume calls filter the points); returns the first reproducing replay.
+func probeNatively(rp *Replayer, hs *HarnessSpec, ob *Obligation, all []*HarnessSpec, tier string, known []string, dir string, seed int, budget *int) *ReplayOutcome {
+	if *budget <= 0 || len(ob.Vars) == 0 {
+		return nil
+	}
+	*budget--
+	saved := ob.Model
+	defer func() { ob.Model = saved }()
+	for _, pm := range randomModelsB(ob.Vars, ob.Bounds, 300, seed+len(ob.Label)+7) {
+		ob.Model = pm
+		ro := rp.Replay(hs, ob, all, tier, known, dir)
+		if ro.Reproduced {
+			return &ro
+		}
+	}
+	return nil
 }
